@@ -26,6 +26,7 @@ from ..types import Scalar, Optional, Tuple, Union, Tensor
 _rsqrt3 = 1 / math.sqrt(3)
 _r12 = 1 / 12
 _r24 = 1 / 24
+_WARMUP = 100  # number of queries after which a BrownianInterval without a `dt` hint starts building its dependency tree
 
 
 def _randn(size, dtype, device, seed):
@@ -572,7 +573,7 @@ class BrownianInterval(brownian_base.BaseBrownian, _Interval):
             # can instead make both directions O(N log N).
             self._average_dt = 0
             self._tree_dt = t1 - t0
-            self._num_evaluations = -100  # start off with a warmup period to get a decent estimate of the average
+            self._num_evaluations = -_WARMUP  # start off with a warmup period to get a decent estimate of the average
             if dt is not None:
                 # Create the dependency tree based on the supplied hint `dt`.
                 self._create_dependency_tree(dt)
@@ -628,16 +629,20 @@ class BrownianInterval(brownian_base.BaseBrownian, _Interval):
         else:
             if self._dt is None and not self._halfway_tree:
                 self._num_evaluations += 1
+                # Compute average step size so far. (From the very first query on: the warm-up period is there to get a
+                # decent estimate of the average before acting on it.)
+                num_queries = self._num_evaluations + _WARMUP
+                self._average_dt = (tb - ta + self._average_dt * (num_queries - 1)) / num_queries
                 # We start off with "negative" num evaluations, to give us a small warm-up period at the start.
                 if self._num_evaluations > 0:
-                    # Compute average step size so far
-                    dt = tb - ta
-                    self._average_dt = (dt + self._average_dt * (self._num_evaluations - 1)) / self._num_evaluations
                     if self._average_dt < 0.5 * self._tree_dt:
                         # If 'dt' wasn't specified, then check the average interval length against the size of the
                         # bottom of the dependency tree. If we're below halfway then refine the tree by splitting all
                         # the bottom pieces into two.
-                        self._create_dependency_tree(dt)
+                        # (Refine to the average, not to the length of this one query: a single step of a few ulps - as
+                        # a solver takes when its grid ends just short of an output time - must not set the resolution
+                        # of the whole tree.)
+                        self._create_dependency_tree(self._average_dt)
 
             # Find the intervals that correspond to the query. We start our search at the last interval we accessed in
             # the binary tree, as it's likely that the next query will come nearby.
